@@ -25,7 +25,7 @@ from ..x_syncnorm import normalized
 NORM_MODULES = ("tornado/locks.py", "tornado/queues.py", "tornado/gen.py", "tornado/concurrent.py", "tornado/ioloop.py", "tornado/platform/asyncio.py")
 from ..x_sync import with_nullness, check_outcome_reads, in_cycle, check_none_tests, own_walk, guard_models, aug_delta, node_counts, method_call_on, container_uses, exit_states, own_find, own_settle_sites
 from .c34 import _while_to_if
-from .c33 import check_timeout_cb, _is_grant, _grant_target, _grant_value, _drop_done_test, _rename_attr, _cmp_op
+from .c33 import wrong_timer_api, check_timeout_cb, _is_grant, _grant_target, _grant_value, _drop_done_test, _rename_attr, _cmp_op
 
 TECHNIQUE = "typestate over the CFG (item/waiter accounting), exhaustive folding of small predicates, dominance, table agreement, settle-discipline lint"
 EXPLANATION = (
@@ -581,10 +581,29 @@ def check_blocking(ck):
         tmos = own_find(fi, lambda x: q.is_call(x, "_set_timeout"))
         ss = own_settle_sites(fi)
         rets = [r for r in own_walk(fi.node) if isinstance(r, ast.Return)]
-        futs = {q.dotted(r.value) if r.value is not None else None for r in rets}
-        if len(futs) != 1 or None in futs:
+        futs = {q.dotted(r.value) for r in rets if r.value is not None and q.dotted(r.value) is not None}
+        if len(futs) != 1 or any(r.value is None for r in rets):
             raise AnalysisError("%s: cannot identify the returned future" % fi.site())
         fut = next(iter(futs))
+        for r in rets:
+            if q.dotted(r.value) is None:
+                # something computed from the queued future is returned instead of the queued future itself
+                v_ = r.value
+                if q.is_call(v_, "typing.cast", "cast") and len(v_.args) == 2 and q.dotted(v_.args[1]) == fut:
+                    continue
+                other = False  # positive evidence: a same-module helper that can return something else than the future it is given
+                if isinstance(v_, ast.Call) and isinstance(v_.func, ast.Name) and v_.func.id in fi.module.funcs:
+                    hf = fi.module.funcs[v_.func.id]
+                    idx_ = [i_ for i_, a_ in enumerate(v_.args) if q.dotted(a_) == fut]
+                    if idx_ and idx_[0] < len(hf.params()):
+                        hp = hf.params()[idx_[0]]
+                        other = any(isinstance(x, ast.Return) and x.value is not None and q.dotted(x.value) != hp for x in own_walk(hf.node))
+                if not other:
+                    raise AnalysisError("%s: cannot identify the returned future" % fi.site(r))
+                if any(isinstance(n, ast.Name) and n.id == fut for n in ast.walk(r.value)):
+                    ck.ob(R, fi, r, False, "%s returns the very future it queued (a wrapper around it can time out while the queued waiter is still live, so an item or a slot is handed to an operation that already failed)" % name)
+                else:
+                    raise AnalysisError("%s: cannot identify the returned future" % fi.site(r))
         fresh = any(isinstance(getattr(st, "value", None), ast.Call) and q.call_attr(st.value) in ("Future", "_create_future") for st in q.stores_to(fi.node, fut))
         ck.ob(R, fi, fi.node, fresh, "%s returns a fresh future" % name, construct="future fresh")
         # the non-blocking attempt is protected by a handler for the matching exception, which does not re-raise
@@ -648,7 +667,12 @@ def check_blocking(ck):
         for s in ss:
             v = _grant_value(s[1]) if _is_grant(s[1]) else None
             if name == "get":
-                ck.ob(R, fi, s[1], s[2] == fut and v is not None and method_call_on(v, "self", nowait), "get completes its future with the item from get_nowait()")
+                src = v
+                if isinstance(v, ast.Name):
+                    defs = q.stores_to(fi.node, v.id)
+                    if defs and all(isinstance(d, (ast.Assign, ast.AnnAssign)) and d.value is not None and method_call_on(d.value, "self", nowait) for d in defs):
+                        src = defs[0].value
+                ck.ob(R, fi, s[1], s[2] == fut and src is not None and method_call_on(src, "self", nowait), "get completes its future with the item from get_nowait()")
             else:
                 ck.ob(R, fi, s[1], s[2] == fut and v is not None and q.is_const(v, None), "put completes its future with None")
         check_settles(ck, "C35.settle", fi, allow_safe_unguarded=False)
@@ -656,6 +680,12 @@ def check_blocking(ck):
     st = ck.func(Q, "_set_timeout")
     ps = st.params()
     tmo = own_find(st, lambda x: isinstance(x, ast.Call) and q.call_attr(x) == "add_timeout")
+    if not tmo:
+        wrapped = own_find(st, lambda x: isinstance(x, ast.Call) and q.call_attr(x) == "with_timeout" and any(q.dotted(a) == ps[0] for a in x.args))
+        for nd_, c_ in wrapped:
+            ck.ob("C35.timeout", st, c_, False, "the queued waiter itself is failed at the deadline (so that _consume_expired sees it done); gen.with_timeout only fails its wrapper and leaves the queued future pending")
+        if wrapped or wrong_timer_api(ck, "C35.timeout", st, ps[1]):
+            return
     ck.floor("C35.timeout", len(tmo), 1, "timers armed by _set_timeout")
     tc = node_counts(st, lambda x: any(x is c for _, c in tmo))
     tfact = "%s is None" % ps[1]
